@@ -8,7 +8,9 @@ use proptest::prelude::*;
 use serde::{Deserialize, Serialize};
 use std::path::Path;
 
-pub const PATTERNS: [&str; 12] = [
+pub const PATTERNS: [&str; 14] = [
+    "$ENV{LV_BRACES}.{}.log",
+    "$ENV{LV_BRACES}/{}",
     "a.{}.log",
     "arch/{}/a.log",
     "a.{}.log.gz",
@@ -26,6 +28,8 @@ pub const PATTERNS: [&str; 12] = [
 pub fn lookup(name: &str) -> Option<String> {
     match name {
         "LV_SET" => Some("envdir".to_string()),
+        // a value that itself contains the index placeholder is inserted verbatim
+        "LV_BRACES" => Some("b{}r".to_string()),
         _ => None,
     }
 }
